@@ -1910,7 +1910,30 @@ func (ctx *RenderContext) ToString(val interface{}) string {
 		return string(v)
 	case fmt.Stringer:
 		return v.String()
+	case Node:
+		// a bare macro or other node value has no text of its own
+		return ""
+	}
+
+	if s, ok := textWithoutAddress(val); ok {
+		return s
 	}
 
 	return fmt.Sprintf("%v", val)
+}
+
+// textWithoutAddress gives the text of the values whose %v form would be a memory address:
+// a pointer prints what it points to (nothing when nil), funcs and channels print nothing.
+func textWithoutAddress(val interface{}) (string, bool) {
+	rv := reflect.ValueOf(val)
+	switch rv.Kind() {
+	case reflect.Ptr:
+		if rv.IsNil() || !rv.Elem().CanInterface() {
+			return "", true
+		}
+		return toString(rv.Elem().Interface()), true
+	case reflect.Func, reflect.Chan, reflect.UnsafePointer:
+		return "", true
+	}
+	return "", false
 }
